@@ -606,6 +606,43 @@ func (c *Ctx) rangeFromFacts(facts map[fact]bool, v ssa.Value) intRange {
 	return r
 }
 
+// nilCmp: v is a comparison of something with the nil constant, in either operand order; x is the something.
+func nilCmp(v ssa.Value) (x ssa.Value, op token.Token, ok bool) {
+	bo, isBin := v.(*ssa.BinOp)
+	if !isBin || (bo.Op != token.EQL && bo.Op != token.NEQ) {
+		return nil, 0, false
+	}
+	switch {
+	case isNilConst(bo.Y):
+		return bo.X, bo.Op, true
+	case isNilConst(bo.X):
+		return bo.Y, bo.Op, true
+	}
+	return nil, 0, false
+}
+
+// cmpConst: v compares something with an integer constant, in either operand order; normalised to "x op k".
+func cmpConst(v ssa.Value) (x ssa.Value, op token.Token, k int64, ok bool) {
+	bo, isBin := v.(*ssa.BinOp)
+	if !isBin {
+		return nil, 0, 0, false
+	}
+	switch bo.Op {
+	case token.EQL, token.NEQ, token.LSS, token.LEQ, token.GTR, token.GEQ:
+	default:
+		return nil, 0, 0, false
+	}
+	if k, isK := constInt(bo.Y); isK {
+		if _, both := constInt(bo.X); !both {
+			return bo.X, bo.Op, k, true
+		}
+	}
+	if k, isK := constInt(bo.X); isK {
+		return bo.Y, flipOp(bo.Op), k, true
+	}
+	return nil, 0, 0, false
+}
+
 func flipOp(op token.Token) token.Token {
 	switch op {
 	case token.LSS:
